@@ -96,7 +96,7 @@ def run(ctx):
         if r4.violated != "Law":
             ctx.drift("non-vacuity control: BrownianLaw with a wrong bridge coefficient was not rejected")
 
-    names = ["A", "D", "C2"] if quick else ["A", "A1", "A3", "D", "E", "F", "C2", "C", "B", "G"]
+    names = ["A", "D", "C2", "H6"] if quick else ["A", "A1", "A3", "D", "E", "F", "C2", "C", "B", "G", "H6"]
     modes = [(lv, sup) for lv in ("none", "space-time", "davie") for sup in ("none", "W", "WH")]
     k = 0
     for name in names:
